@@ -20,6 +20,10 @@ def apply_edit(root, v):
         p = subprocess.run(['patch', '-p1', '-s', '-f', '--no-backup-if-mismatch', '-d', root, '-i', v['patch']],
                            capture_output=True, text=True)
         return None if p.returncode == 0 else 'seeded patch no longer applies: ' + (p.stdout + p.stderr).strip()[:120]
+    if v.get('transform'):
+        from . import transforms
+        if v['transform'] in transforms.ALL:
+            return transforms.apply(root, v['transform'])
     if v.get('transform') == 'rename_locals':
         return rename_locals_tree(root, v.get('suffix', '_rn'))
     if v.get('transform') == 'swap_branches':
